@@ -74,6 +74,9 @@ impl FileStorage {
 
 impl StorageData for FileStorage {
     fn backup(&self, name: &str) -> Result<(), DbError> {
+        #[cfg(agdb_verif)]
+        super::verif_fs::copy(&self.filename, name)?;
+        #[cfg(not(agdb_verif))]
         std::fs::copy(&self.filename, name)?;
         Ok(())
     }
@@ -149,9 +152,15 @@ impl StorageData for FileStorage {
     }
 
     fn rename(&mut self, new_name: &str) -> Result<(), DbError> {
+        #[cfg(agdb_verif)]
+        super::verif_fs::rename(&self.filename, new_name)?;
+        #[cfg(not(agdb_verif))]
         std::fs::rename(&self.filename, new_name)?;
         self.file = OpenOptions::new().read(true).write(true).open(new_name)?;
         self.wal = WriteAheadLog::new(new_name)?;
+        #[cfg(agdb_verif)]
+        super::verif_fs::remove_file(WriteAheadLog::wal_filename(&self.filename))?;
+        #[cfg(not(agdb_verif))]
         std::fs::remove_file(WriteAheadLog::wal_filename(&self.filename))?;
         self.filename = new_name.to_string();
         Ok(())
